@@ -494,3 +494,60 @@ Example C02_from_bytes_examples :
   /\ is_ok (parse_pkcs1_public_der (enc_seq (enc_int f26_n ++ enc_int 65537 ++ enc_int 1) ++ [0; 0])) = true.
 Proof. exact pkcs1_der_examples. Qed.
 Print Assumptions C02_from_bytes_examples.
+
+(* SubjectPublicKeyInfo and PKCS#8 PrivateKeyInfo from the bytes: the outer structure, the
+   AlgorithmIdentifier (OID octets through parseObjectIdentifier, parameters as a RawValue), the BIT STRING /
+   OCTET STRING and the NESTED decode of the key octets / parameters are all computed by the model.
+   For every answer [ec] of the EC parameter reader (not consulted under these algorithms), every key and
+   every [rest]: RSA (rsaEncryption, NULL parameters), DSA (id-dsa, Dss-Parms), Ed25519 (no parameters). *)
+Theorem C02_pkix_rsa_from_bytes : forall ec n e rest, int_wf n = true -> exp_wf e = true ->
+  parse_pkix_der ec (enc_spki_rsa n e ++ rest) = Ok (key_description "PKIX public key" name_rsa n).
+Proof. exact pkix_rsa_der_enc. Qed.
+Print Assumptions C02_pkix_rsa_from_bytes.
+
+Theorem C02_pkix_dsa_from_bytes : forall ec p q g y rest,
+  int_wf p = true -> int_wf q = true -> int_wf g = true -> int_wf y = true ->
+  parse_pkix_der ec (enc_spki_dsa p q g y ++ rest) = Ok (key_description "PKIX public key" name_dsa p).
+Proof. exact pkix_dsa_der_enc. Qed.
+Print Assumptions C02_pkix_dsa_from_bytes.
+
+Theorem C02_pkix_ed25519_from_bytes : forall ec pk rest, N.of_nat (length pk) <= 1000000 ->
+  parse_pkix_der ec (enc_spki_ed25519 pk ++ rest) = Ok (Info (bs "PKIX public key") ed25519_attrs []).
+Proof. exact pkix_ed25519_der_enc. Qed.
+Print Assumptions C02_pkix_ed25519_from_bytes.
+
+(* PKCS#8: the right-hand sides mention no private component (d, p, q, dP, dQ, qInv; x; the seed) *)
+Theorem C02_pkcs8_rsa_from_bytes : forall ec n e d p q dp dq qinv rest,
+  int_wf n = true -> exp_wf e = true -> int_wf d = true -> int_wf p = true -> int_wf q = true ->
+  int_wf dp = true -> int_wf dq = true -> int_wf qinv = true ->
+  parse_pkcs8_der ec (enc_pkcs8_rsa n e d p q dp dq qinv ++ rest)
+  = Ok (key_description "PKCS#8 private key" name_rsa n).
+Proof. exact pkcs8_rsa_der_enc. Qed.
+Print Assumptions C02_pkcs8_rsa_from_bytes.
+
+Theorem C02_pkcs8_dsa_from_bytes : forall ec p q g x rest,
+  int_wf p = true -> int_wf q = true -> int_wf g = true -> int_wf x = true ->
+  parse_pkcs8_der ec (enc_pkcs8_dsa p q g x ++ rest) = Ok (key_description "PKCS#8 private key" name_dsa p).
+Proof. exact pkcs8_dsa_der_enc. Qed.
+Print Assumptions C02_pkcs8_dsa_from_bytes.
+
+Theorem C02_pkcs8_ed25519_from_bytes : forall ec seed rest, N.of_nat (length seed) <= 1000000 ->
+  parse_pkcs8_der ec (enc_pkcs8_ed25519 seed ++ rest) = Ok (Info (bs "PKCS#8 private key") ed25519_attrs []).
+Proof. exact pkcs8_ed25519_der_enc. Qed.
+Print Assumptions C02_pkcs8_ed25519_from_bytes.
+
+Example C02_spki_pkcs8_from_bytes_examples :
+  parse_pkix_der (Err "oracle") (enc_spki_rsa f26_n 65537)
+     = Ok (Info (bs "PKIX public key") [(bs "Algorithm", bs "RSA"); (bs "Size", bs "2047 bits")] [])
+  /\ parse_pkix_der (Err "oracle") (enc_spki_dsa (2 ^ 1022 + 7) (2 ^ 159 + 1) 5 6)
+     = Ok (Info (bs "PKIX public key") [(bs "Algorithm", bs "DSA"); (bs "Size", bs "1023 bits")] [])
+  /\ parse_pkix_der (Err "oracle") (enc_spki_ed25519 (repeat 7 32))
+     = Ok (Info (bs "PKIX public key") [(bs "Algorithm", bs "EdDSA"); (bs "Curve", bs "Ed25519")] [])
+  /\ parse_pkcs8_der (Err "oracle") (enc_pkcs8_rsa f26_n 65537 (f26_n - 2) (2 ^ 1023 + 1) (2 ^ 1023 - 1) 11 13 17)
+     = Ok (Info (bs "PKCS#8 private key") [(bs "Algorithm", bs "RSA"); (bs "Size", bs "2047 bits")] [])
+  /\ parse_pkcs8_der (Err "oracle") (enc_pkcs8_dsa (2 ^ 1022 + 7) (2 ^ 159 + 1) 5 6)
+     = Ok (Info (bs "PKCS#8 private key") [(bs "Algorithm", bs "DSA"); (bs "Size", bs "1023 bits")] [])
+  /\ parse_pkcs8_der (Err "oracle") (enc_pkcs8_ed25519 (repeat 9 32))
+     = Ok (Info (bs "PKCS#8 private key") [(bs "Algorithm", bs "EdDSA"); (bs "Curve", bs "Ed25519")] []).
+Proof. exact spki_pkcs8_der_examples. Qed.
+Print Assumptions C02_spki_pkcs8_from_bytes_examples.
